@@ -4,6 +4,11 @@ import json, os, sys
 HERE = os.path.dirname(os.path.dirname(os.path.abspath(__file__)))
 
 CHECKS = {
+ "C06": dict(
+   technique="metamorphic property-based testing with harness-owned ISO-3166 and suffix lists: exhaustive panels (all codes, ports, positions, suffix pairs, negative controls) + Hypothesis compositions",
+   text="f(T(u)) == f(u) for case flips, ports, every ISO-3166 code as 'xx.' and a grid of 'xx-yy.', gl/hl at every position, all ordered pairs of a 12-suffix panel under strip_suffix=True, and compositions with the documented-irrelevant family, under the four strip_suffix x platform_aware settings; the result must carry no scheme, userinfo, port or upper-case letter; negative controls (non-ISO labels, two-label hosts, gl/hl look-alikes, suffix swap without strip_suffix) must change the fingerprint.",
+   note="Trusted base: vlib/lists.ISO_3166 (checked equal to the ISO-3166-1 alpha-2 set), suffix panel verified by vlib/pslref.py against the bundled list, vlib/transforms.py.",
+   design="§4 C06"),
  "C03": dict(
    technique="metamorphic property-based testing on generated collision pairs (premise observed, then implication checked) and composition equalities on single URLs incl. an exhaustive token sweep",
    text="Pairs (u, T(u)) from five families (spelling / documented-irrelevant transformations over dirty, normalize-oriented, clean and platform bases) under 12 option sets: whenever the canonical (resp. normalized) forms coincide the normalized forms (resp. fingerprints) must coincide; normalize_url(canonicalize_url(u)) == normalize_url(u) and the fingerprint analogue on grammar URLs and on every token in six positions of a carrier URL. The share of pairs whose premise holds is measured (about 70% canonical-equal, >99% normalized-equal).",
